@@ -45,6 +45,8 @@ def gen_case(rng: random.Random, tier: str) -> dict:
     for f in ("zid_mentions", "multiline", "header_tags", "tags", "props"):
         if rng.random() < 0.5 and f not in feats:
             feats.append(f)
+    if rng.random() < 0.3:
+        feats.append("zid3")  # 3-character ZIDs extending 2-character ones (after c10e)
     world = gen.gen_world(rng, feats=feats, pages=(2, 4), max_items=6, zid_mode=rng.choice(["all", "mix"]))
     world["files"]["tmpl/moved.zot"] = TEMPLATE
     world["files"]["tmpl/hdr.zot"] = TEMPLATE_HDR
